@@ -540,3 +540,488 @@ def ids_only_translation(chk, rule, rel, qual, why):
     ok = len(rets) == 1 and norm(rets[0].value) == par and len(loops) == 1 and only_ids and not ctor
     chk.ob(rule, f"{rel}:{qual}", "translates-ids-in-place", ok,
            f"the identifier translation returns the very records it was given with only their id re-written ({why})", node=fn, strength="N")
+
+
+# ---------------------------------------------------------------------------
+# who may write the configuration of an assertion's test object (added with the eighth wave)
+
+TEST_CONFIG_WRITERS = {
+    # (function, attribute): why this store is part of the design
+    ("Assertion.set_margin_from_cvrs", "u"): "the bound of the data follows the margin (C06.R3 reads the value stored)",
+    ("Assertion.set_all_margins_from_cvrs", "u"): "the same, for every assertion of a contest",
+    ("Assertion.set_p_values", "u"): "the bound mvrs_to_data reports for the data it hands over (C06.R4)",
+}
+
+
+def _test_attr_target(t, aliases):
+    """-> the attribute of a test object that the store target t writes (`<x>.test.<attr>`, `<x>.test.<attr>[i]`, or the same
+    through a local alias of `<x>.test`), else None"""
+    chain = []
+    x = t
+    while isinstance(x, (ast.Attribute, ast.Subscript)):
+        chain.append(x)
+        x = x.value
+    # chain: outermost first; look for an Attribute whose value is `<...>.test` or an alias
+    for nd in chain:
+        if isinstance(nd, ast.Attribute):
+            v = nd.value
+            if isinstance(v, ast.Attribute) and v.attr == "test":
+                return nd.attr
+            if isinstance(v, ast.Name) and v.id in aliases:
+                return nd.attr
+    return None
+
+
+def test_config_writers(chk, rule, why):
+    """The NonnegMean object of an assertion is configured by the constructor call in Assertion.__init__ (and `u` by the three
+    confirmed sites above).  Every other store into an attribute of `<x>.test` -- from any module of the package -- makes the
+    configuration a function of the audit's history or of the sample itself: a rate 'learned' from the observations, a value
+    left behind by sample-size planning, a margin copied at one moment and stale at the next.  Whole-package scan; a local alias
+    `t = <x>.test` is followed; setattr / __dict__ / vars forms count."""
+    from .astutil import walk_local
+    seen = 0
+    for rel, m in sorted(chk.idx.modules.items()):
+        for q, fd in sorted(m.defs.items()):
+            if not isinstance(fd, (ast.FunctionDef, ast.AsyncFunctionDef)):
+                continue
+            aliases = set()
+            for nd in walk_local(fd):
+                if isinstance(nd, ast.Assign) and isinstance(nd.value, ast.Attribute) and nd.value.attr == "test":
+                    for t in nd.targets:
+                        if isinstance(t, ast.Name):
+                            aliases.add(t.id)
+                elif isinstance(nd, ast.NamedExpr) and isinstance(nd.value, ast.Attribute) and nd.value.attr == "test":
+                    aliases.add(nd.target.id)
+            if fd.name in ("__init__",) and rel.endswith("NonnegMean.py"):
+                continue
+            for nd in walk_local(fd):
+                hits = []
+                tg = []
+                if isinstance(nd, ast.Assign):
+                    tg = nd.targets
+                elif isinstance(nd, (ast.AugAssign, ast.AnnAssign)):
+                    tg = [nd.target]
+                elif isinstance(nd, ast.Delete):
+                    tg = nd.targets
+                for t in tg:
+                    for sub in (t.elts if isinstance(t, (ast.Tuple, ast.List)) else [t]):
+                        a = _test_attr_target(sub, aliases)
+                        if a is not None:
+                            hits.append(a)
+                if isinstance(nd, ast.Call):
+                    f = norm(nd.func)
+                    a0 = nd.args[0] if nd.args else None
+                    is_test = lambda e: (isinstance(e, ast.Attribute) and e.attr == "test") or (isinstance(e, ast.Name) and e.id in aliases)
+                    if f in ("setattr", "object.__setattr__", "delattr") and a0 is not None and is_test(a0):
+                        hits.append(norm(nd.args[1]) if len(nd.args) > 1 else "?")
+                    elif isinstance(nd.func, ast.Attribute) and nd.func.attr in ("update", "setdefault", "pop", "clear", "__setitem__"):
+                        recv = nd.func.value
+                        if isinstance(recv, ast.Attribute) and recv.attr == "__dict__" and is_test(recv.value):
+                            hits.append("__dict__")
+                        elif isinstance(recv, ast.Call) and norm(recv.func) == "vars" and recv.args and is_test(recv.args[0]):
+                            hits.append("__dict__")
+                for a in hits:
+                    seen += 1
+                    ok = (q, a) in TEST_CONFIG_WRITERS and rel == REL
+                    chk.ob(rule, f"{rel}:{q}", f"test-config-write[{a}]", ok,
+                           why + ": the attributes of an assertion's test object are written by its constructor only, and `u` by "
+                           "set_margin_from_cvrs / set_all_margins_from_cvrs / set_p_values; any other store makes the test's "
+                           "configuration depend on the history of calls or on the sample", node=nd, strength="N",
+                           **({} if ok else {"store": norm(nd)[:120]}))
+    chk.need(rule, seen, 2, "stores into attributes of a test object (the confirmed `u` sites)")
+
+
+# ---------------------------------------------------------------------------
+# frame condition on arguments: a function that only *reads* its inputs (added with the eighth wave)
+
+_BY_REFERENCE_METHODS = {"get", "items", "values", "setdefault", "__getitem__"}
+_ARRAY_VIEWS = {"np.asarray", "np.asanyarray", "numpy.asarray", "np.ravel", "np.atleast_1d"}
+
+
+def argument_mutations(fd, skip=()):
+    """-> [(parameter, text, node)]: the places where fd changes an object it was handed -- a mutating method call, a store or
+    del through a subscript or an attribute, an augmented assignment of an array view, an `out=` argument -- on a parameter or
+    on something reached from a parameter *by reference* (an alias, an element, an attribute, a loop variable over it, .get /
+    .items / .values, np.asarray of it).  Anything that makes a new object (a call, a comprehension, a literal, arithmetic)
+    ends the chain.  Names are resolved through the bindings that can reach the use: a binding in the other arm of an `if`
+    does not, and an unconditional re-binding earlier in the same (or an enclosing) statement list hides what came before it."""
+    from .astutil import ancestors
+    params = [a.arg for a in fd.args.posonlyargs + fd.args.args + fd.args.kwonlyargs]
+    if fd.args.vararg:
+        params.append(fd.args.vararg.arg)
+    if fd.args.kwarg:
+        params.append(fd.args.kwarg.arg)
+    params = [p for p in params if p not in ("self", "cls") and p not in skip]
+    # bindings: name -> [(stmt, value expression or ("iter", expr))]
+    binds = {}
+
+    def add(t, stmt, val):
+        if isinstance(t, ast.Name):
+            binds.setdefault(t.id, []).append((stmt, val))
+        elif isinstance(t, (ast.Tuple, ast.List)):
+            for el in t.elts:
+                add(el.value if isinstance(el, ast.Starred) else el, stmt, val)
+
+    for nd in walk_local(fd):
+        if isinstance(nd, ast.Assign):
+            for t in nd.targets:
+                add(t, nd, nd.value)
+        elif isinstance(nd, ast.AnnAssign) and nd.value is not None:
+            add(nd.target, nd, nd.value)
+        elif isinstance(nd, ast.NamedExpr):
+            add(nd.target, nd, nd.value)
+        elif isinstance(nd, (ast.For, ast.AsyncFor)):
+            add(nd.target, nd, ("iter", nd.iter))
+        elif isinstance(nd, ast.With):
+            for it in nd.items:
+                if it.optional_vars is not None:
+                    add(it.optional_vars, nd, it.context_expr)
+        elif isinstance(nd, ast.AugAssign) and isinstance(nd.target, ast.Name):
+            pass  # keeps what the name referred to (in place) or makes a new object: neither adds a reference
+
+    # what is put *into* a local container: name -> [(stmt, expression, whole)] (whole: its elements are added, not itself)
+    puts = {}
+    for nd in walk_local(fd):
+        if isinstance(nd, ast.Assign):
+            for t in nd.targets:
+                if isinstance(t, ast.Subscript) and isinstance(t.value, ast.Name):
+                    puts.setdefault(t.value.id, []).append((nd, nd.value, False))
+        elif isinstance(nd, ast.Expr) and isinstance(nd.value, ast.Call) and isinstance(nd.value.func, ast.Attribute) \
+                and isinstance(nd.value.func.value, ast.Name) and nd.value.args:
+            c_ = nd.value
+            if c_.func.attr in ("append", "add", "appendleft"):
+                puts.setdefault(c_.func.value.id, []).append((nd, c_.args[0], False))
+            elif c_.func.attr in ("insert", "setdefault") and len(c_.args) > 1:
+                puts.setdefault(c_.func.value.id, []).append((nd, c_.args[1], False))
+            elif c_.func.attr in ("extend", "update"):
+                puts.setdefault(c_.func.value.id, []).append((nd, c_.args[0], True))
+
+    def chain(n):
+        """[(statement list owner, field, index)] from the function body down to n"""
+        out = []
+        cur = n
+        while cur is not fd and cur is not None:
+            par = getattr(cur, "_parent", None)
+            if par is None:
+                break
+            for field in ("body", "orelse", "finalbody", "handlers"):
+                lst = getattr(par, field, None)
+                if isinstance(lst, list) and any(cur is x for x in lst):
+                    out.append((par, field, next(i for i, x in enumerate(lst) if x is cur)))
+                    break
+            cur = par
+        return out[::-1]
+
+    def reaching(name, use):
+        uc = chain(use)
+        res = []
+        cands = binds.get(name, [])
+        kill_before = None  # (position key) of the latest unconditional earlier binding
+        for stmt, val in cands:
+            bc = chain(stmt)
+            # exclusive arms of a common If / Try?
+            excl = False
+            for (po, fo, io), (pb, fb, ib) in zip(uc, bc):
+                if po is pb and fo != fb and isinstance(po, ast.If):
+                    excl = True
+                if po is not pb or fo != fb or io != ib:
+                    break
+            if excl:
+                continue
+            res.append((stmt, val, bc))
+        # unconditional earlier binding in a statement list on the use's chain
+        best = None
+        for stmt, val, bc in res:
+            if not bc:
+                continue
+            po, fo, io = bc[-1]
+            for (pu, fu, iu) in uc:
+                if pu is po and fu == fo and io < iu and not isinstance(stmt, (ast.For, ast.AsyncFor)):
+                    # stmt is a plain statement of a list the use is (nested) in, before it
+                    inloop = any(isinstance(a, (ast.For, ast.While, ast.AsyncFor)) for a, _, _ in uc[uc.index((pu, fu, iu)):])
+                    if best is None or stmt.lineno > best.lineno:
+                        best = stmt
+        if best is not None:
+            # bindings textually before `best` are hidden unless inside a loop that contains both (conservative: keep later ones)
+            res = [(s_, v, bc) for s_, v, bc in res if s_.lineno >= best.lineno]
+            hidden_param = True
+        else:
+            hidden_param = False
+        return res, hidden_param
+
+    def comp_env(comp, at, depth, env):
+        env = dict(env)
+        for g in comp.generators:
+            o = ref_origin(g.iter, at, depth, env) | elem_origin(g.iter, at, depth, env)
+            for n_ in ast.walk(g.target):
+                if isinstance(n_, ast.Name):
+                    env[n_.id] = o
+        return env
+
+    def elem_origin(e, at, depth=0, env=None):
+        """the parameters the *elements* of the (possibly fresh) container e may refer into"""
+        env = env or {}
+        if depth > 12:
+            return set()
+        if isinstance(e, ast.Name):
+            if e.id in env:
+                return set(env[e.id])
+            res, hidden = reaching(e.id, at)
+            out = set()
+            if e.id in params and not hidden:
+                out.add(e.id)
+            for stmt, val, _ in res:
+                if stmt is at and not isinstance(stmt, (ast.For, ast.AsyncFor)):
+                    continue
+                if isinstance(val, tuple):
+                    continue  # elements of a loop variable: its own reference covers them (ref_origin)
+                out |= elem_origin(val, stmt, depth + 1) | ref_origin(val, stmt, depth + 1)
+            if e.id not in params:
+                for stmt, val, whole in puts.get(e.id, []):
+                    out |= (elem_origin(val, stmt, depth + 1) if whole else ref_origin(val, stmt, depth + 1))
+            return out
+        if isinstance(e, (ast.ListComp, ast.SetComp, ast.GeneratorExp)):
+            env2 = comp_env(e, at, depth, env)
+            return ref_origin(e.elt, at, depth + 1, env2) | elem_origin(e.elt, at, depth + 1, env2)
+        if isinstance(e, ast.DictComp):
+            env2 = comp_env(e, at, depth, env)
+            return ref_origin(e.value, at, depth + 1, env2) | elem_origin(e.value, at, depth + 1, env2)
+        if isinstance(e, (ast.List, ast.Tuple, ast.Set)):
+            out = set()
+            for x in e.elts:
+                out |= ref_origin(x, at, depth + 1, env)
+            return out
+        if isinstance(e, ast.Dict):
+            out = set()
+            for x in e.values:
+                if x is not None:
+                    out |= ref_origin(x, at, depth + 1, env)
+            return out
+        if isinstance(e, ast.Call):
+            f = norm(e.func)
+            if f in ("list", "tuple", "sorted", "reversed", "set", "filter", "iter", "enumerate", "zip", "dict", "OrderedDict", "np.array",
+                     "itertools.chain", "chain") and e.args:
+                out = set()
+                for a in e.args:
+                    out |= elem_origin(a, at, depth + 1, env) | (ref_origin(a, at, depth + 1, env) if f not in ("np.array",) else set())
+                return out
+            if isinstance(e.func, ast.Attribute) and e.func.attr in ("copy", "values", "items"):
+                return elem_origin(e.func.value, at, depth + 1, env) | ref_origin(e.func.value, at, depth + 1, env)
+            return set()
+        if isinstance(e, ast.IfExp):
+            return elem_origin(e.body, at, depth, env) | elem_origin(e.orelse, at, depth, env)
+        if isinstance(e, ast.Subscript) and isinstance(e.slice, ast.Slice):
+            return elem_origin(e.value, at, depth, env)
+        return set()
+
+    def ref_origin(e, at, depth=0, env=None):
+        """the parameters e may refer into at statement `at`"""
+        env = env or {}
+        if depth > 12:
+            return set()
+        if isinstance(e, ast.Name):
+            if e.id in env:
+                return set(env[e.id])
+            res, hidden = reaching(e.id, at)
+            out = set()
+            if e.id in params and not hidden:
+                out.add(e.id)
+            for stmt, val, _ in res:
+                if stmt is at and not isinstance(stmt, (ast.For, ast.AsyncFor)):
+                    continue
+                if isinstance(val, tuple):
+                    out |= ref_origin(val[1], stmt, depth + 1) | elem_origin(val[1], stmt, depth + 1)
+                else:
+                    out |= ref_origin(val, stmt, depth + 1)
+            return out
+        if isinstance(e, ast.Attribute):
+            return ref_origin(e.value, at, depth, env)
+        if isinstance(e, ast.Subscript):
+            if isinstance(e.slice, ast.Constant) and isinstance(e.slice.value, int) and isinstance(e.value, ast.Name) \
+                    and e.value.id not in env and e.value.id not in params:
+                # element k of a name bound to list / tuple displays only: that element's own origin
+                res, _h = reaching(e.value.id, at)
+                k = e.slice.value
+                if res and all(isinstance(v, (ast.List, ast.Tuple)) and -len(v.elts) <= k < len(v.elts)
+                               and not any(isinstance(x, ast.Starred) for x in v.elts) for _s, v, _c in res):
+                    out = set()
+                    for st_, v, _c in res:
+                        out |= ref_origin(v.elts[k], st_, depth + 1)
+                    return out
+            return ref_origin(e.value, at, depth, env) | elem_origin(e.value, at, depth, env)
+        if isinstance(e, ast.Starred):
+            return ref_origin(e.value, at, depth, env)
+        if isinstance(e, ast.Call):
+            f = norm(e.func)
+            if f in _ARRAY_VIEWS and e.args:
+                return ref_origin(e.args[0], at, depth, env)
+            if isinstance(e.func, ast.Attribute) and e.func.attr in _BY_REFERENCE_METHODS:
+                return ref_origin(e.func.value, at, depth, env) | elem_origin(e.func.value, at, depth, env)
+            if f in ("enumerate", "zip", "reversed", "iter", "next") and e.args:
+                out = set()
+                for a in e.args:
+                    out |= ref_origin(a, at, depth, env) | (elem_origin(a, at, depth, env) if f == "next" else set())
+                return out
+            return set()
+        if isinstance(e, ast.IfExp):
+            return ref_origin(e.body, at, depth, env) | ref_origin(e.orelse, at, depth, env)
+        if isinstance(e, ast.BoolOp):
+            out = set()
+            for v in e.values:
+                out |= ref_origin(v, at, depth, env)
+            return out
+        if isinstance(e, ast.NamedExpr):
+            return ref_origin(e.value, at, depth, env)
+        return set()
+
+    def stmt_of(n):
+        cur = n
+        while cur is not None and not isinstance(cur, ast.stmt):
+            cur = getattr(cur, "_parent", None)
+        return cur or n
+
+    out = []
+    for nd in walk_local(fd):
+        tg = []
+        if isinstance(nd, ast.Assign):
+            tg = nd.targets
+        elif isinstance(nd, ast.AnnAssign):
+            tg = [nd.target]
+        elif isinstance(nd, ast.Delete):
+            tg = nd.targets
+        elif isinstance(nd, ast.AugAssign):
+            if isinstance(nd.target, ast.Name):
+                if _maybe_array(fd, nd.target.id):
+                    for o in sorted(ref_origin(nd.target, nd)):
+                        out.append((o, f"{norm(nd)[:70]} (in place on an array view of {o})", nd))
+            else:
+                tg = [nd.target]
+        for t in tg:
+            for sub in (t.elts if isinstance(t, (ast.Tuple, ast.List)) else [t]):
+                if isinstance(sub, (ast.Subscript, ast.Attribute)):
+                    for o in sorted(ref_origin(sub.value, nd)):
+                        out.append((o, f"stores {norm(sub)[:60]}", nd))
+        if isinstance(nd, ast.Call) and isinstance(nd.func, ast.Attribute) and nd.func.attr in _MUTATORS | {"fill", "resize", "put", "itemset", "sort_values", "popleft", "appendleft"}:
+            for o in sorted(ref_origin(nd.func.value, stmt_of(nd))):
+                out.append((o, f"{norm(nd.func)[:60]}(...)", nd))
+        if isinstance(nd, ast.Call):
+            for kw in nd.keywords:
+                if kw.arg == "out":
+                    for o in sorted(ref_origin(kw.value, stmt_of(nd))):
+                        out.append((o, f"{norm(nd.func)[:40]}(..., out={norm(kw.value)[:30]})", nd))
+    return out
+
+
+def _maybe_array(fd, name):
+    """name is bound (somewhere in fd) through np.asarray & co.: an augmented assignment then works in place"""
+    for nd in walk_local(fd):
+        if isinstance(nd, ast.Assign) and any(isinstance(t, ast.Name) and t.id == name for t in nd.targets):
+            if isinstance(nd.value, ast.Call) and norm(nd.value.func) in _ARRAY_VIEWS:
+                return True
+    return False
+
+
+def reads_arguments_only(chk, rule, rel, quals, why, allowed=None, skip=None):
+    """none of the named functions changes an object it is handed, except as listed in `allowed`
+    {(qual, parameter): reason} (the function's documented effect).  See argument_mutations."""
+    allowed = allowed or {}
+    skip = skip or {}
+    n = 0
+    for q in quals:
+        if not chk.idx.has_func(rel, q):
+            continue
+        fd = chk.idx.func(rel, q)
+        n += 1
+        muts = [(o, txt, nd) for o, txt, nd in argument_mutations(fd, skip=skip.get(q, ())) if (q, o) not in allowed]
+        chk.ob(rule, f"{rel}:{q}", "reads-arguments-only", not muts,
+               why + ": the function does not change the objects it is handed (the caller's records, dicts, lists and arrays "
+               "are the same before and after the call), so a second call, or a later step that reads them, sees what the first did",
+               node=(muts[0][2] if muts else fd), strength="N",
+               **({"mutations": [f"{txt} (line {nd.lineno}, reached from parameter {o})" for o, txt, nd in muts][:6]} if muts else {}))
+    return n
+
+
+def _effect_kind(txt):
+    import re as _re
+    if txt.startswith("stores "):
+        tgt = txt[7:]
+        m_ = _re.search(r"\.([A-Za-z_][A-Za-z_0-9]*)(\[.*)?$", tgt)
+        if tgt.rstrip().endswith("]") and not (m_ and m_.group(2) is None):
+            # item store: name the container attribute if there is one
+            return (m_.group(1) + "[]") if m_ else "[]"
+        return m_.group(1) if m_ else "[]"
+    m_ = _re.match(r"(.*)\.([A-Za-z_]+)\(\.\.\.\)$", txt)
+    if m_:
+        return m_.group(2) + "()"
+    return txt.split(" ")[0]
+
+
+# the effects on arguments confirmed by reading (pinned tree + fix commits): function -> parameter -> what it writes there.
+# Every one of them is the function's documented purpose (a setter over the contests / cards it is given).
+ARG_EFFECTS = {
+    "shangrla/core/Audit.py": {
+        "Assertion.make_all_assertions": {"contests": {"assertions"}},
+        "Assertion.reset_p_values": {"contests": {"p_history", "p_value", "proved", "p_values", "p_values[]", "proved[]", "max_p"}},
+        "Assertion.set_all_margins_from_cvrs": {"contests": {"u", "margins", "margins[]", "update()"}},
+        "Assertion.set_p_values": {"contests": {"p_history", "p_value", "proved", "u", "p_values", "proved[]", "p_values[]", "max_p", "update()"}},
+        "Audit.find_sample_size": {"contests": {"sample_size"}, "cvrs": {"p"}},
+        "Audit.from_dict": {"d": {"[]"}},
+        "CVR.assign_sample_nums": {"cvr_list": {"sample_num"}},
+        "CVR.consistent_sampling": {"contests": {"sample_threshold"}, "cvr_list": {"sampled"}},
+        "CVR.make_phantoms": {"contests": {"cards", "cvrs"}},
+        "CVR.merge_cvrs": {"cvr_list": {"votes", "phantom", "pool", "tally_pool"}},  # the first record of an id absorbs the later ones
+        "CVR.check_tally_pools": {"cvr_list": {"votes", "phantom", "pool", "tally_pool"}},
+        "CVR.prep_comparison_sample": {"cvr_sample": {"sort()"}, "mvr_sample": {"sort()"}},
+        "CVR.prep_polling_sample": {"mvr_sample": {"sort()"}},
+        "CVR.set_card_in_batch_lex": {"cvr_list": {"card_in_batch"}},
+        "CVR.sort_cvr_sample_num": {"cvr_list": {"sort()"}},
+        "Contest.check_cards": {"contests": {"cards"}},
+        "Contest.tally": {"con_dict": {"tally", "tally[]"}},
+    },
+    "shangrla/formats/Dominion.py": {
+        "Dominion.prep_manifest": {"manifest": {"[]"}},
+        "Dominion.raire_to_dominion": {"cvr_list": {"id"}},
+    },
+    "shangrla/formats/Hart.py": {
+        "Hart.prep_manifest": {"manifest": {"[]"}},
+    },
+    "shangrla/raire/raire_utils.py": {
+        "find_best_audit": {"node": {"best_assertion", "estimate"}},
+        "perform_dive": {"node": {"append()"}},
+    },
+}
+
+
+def argument_effects(chk, rule, rel, why, only=None, minimum=1):
+    """whole-module frame condition: every function of module `rel` (those for which only(qual) holds) changes the objects it
+    is handed only as ARG_EFFECTS says.  A new in-place effect on an argument is how a later step, a second call or the caller
+    itself comes to see something other than what the property talks about."""
+    m = chk.idx.module(rel)
+    table = ARG_EFFECTS.get(rel, {})
+    n = 0
+    for q, fd in sorted(m.defs.items()):
+        if not isinstance(fd, (ast.FunctionDef, ast.AsyncFunctionDef)) or (only and not only(q)):
+            continue
+        last = q.split(".")[-1]
+        if last.startswith("_") and not last.startswith("__"):
+            continue  # a private helper is read where it is called (expanded in place below)
+        try:
+            fd = chk.idx.func_x(rel, q)
+        except AnalysisError:
+            raise
+        for par_ in ast.walk(fd):
+            for ch_ in ast.iter_child_nodes(par_):
+                ch_._parent = par_
+        n += 1
+        allowed = table.get(q, {})
+        extra = []
+        for o, txt, nd in argument_mutations(fd):
+            k = _effect_kind(txt)
+            if k not in allowed.get(o, ()):
+                extra.append((o, k, txt, nd))
+        chk.ob(rule, f"{rel}:{q}", "argument-effects", not extra,
+               why + ": the function changes the objects it is handed only in the ways confirmed for it ("
+               + (", ".join(f"{p}: {sorted(v)}" for p, v in sorted(allowed.items())) or "none: it only reads them") + ")",
+               node=(extra[0][3] if extra else fd), strength="N",
+               **({"new_effects": [f"{txt} (line {nd.lineno}; reached from parameter {o})" for o, k, txt, nd in extra][:6]} if extra else {}))
+    chk.need(rule, n, minimum, f"functions of {rel} examined for effects on their arguments")
